@@ -36,6 +36,7 @@ def shard(ctx: Ctx) -> None:
     sweep.same_turn_pairs_sweep(ctx, PROP)
     sweep.stalled_connect_sweep(ctx, PROP)
     sweep.abandoned_disconnect_sweep(ctx, PROP)
+    sweep.reconnect_in_on_stop_sweep(ctx, PROP)
     if ctx.thorough:
         sweep.pair_sweep(ctx, PROP, 3000)
     else:
